@@ -12,7 +12,8 @@ META = {
     'bounds': {'quick': 'series length n in 2..7, every real value in [-1000, 1000] (all 3^(n-1) rise/fall/flat '
                         'patterns are separate feasible paths)',
                'thorough': 'series length n in 2..9'},
-    'outside': ['NaN/inf inputs', 'floating-point underflow of the product sign test (real-arithmetic model)',
+    'fp_lemma': 'get_peak_array_indices re-executed on z3 Float64 values (RNE, finite inputs) at n=3 (thorough tier; n=4 optional)',
+    'outside': ['NaN/inf inputs', 'floating point beyond the Float64 lemma (n=3 quick, n=4 thorough): round-off in the differences themselves',
                 'series longer than the bound'],
     'assumptions': ['series is not constant (property precondition)'],
 }
@@ -89,7 +90,21 @@ def peaks(ctx, n, via_object=False, split=None, kind='f'):
         ctx.claim('cycle_counter_' + start, good, (all_i, vals))
 
 
-SCENARIOS = {'peaks': peaks}
+def peaks_fp(ctx, n=3):
+    """floating-point lemma: the same detection on IEEE-754 binary64 values (bit-exact semantics, finite inputs).
+    Oracle uses comparisons only (exact in floating point)."""
+    pc = ctx.lib.fns.peaks_and_crossings
+    x = ctx.fparr('x', n)
+    idx = [int(i) for i in pc.get_peak_array_indices(x)]
+    ctx.observe('idx', idx)
+    for i in range(1, n - 1):
+        turning = S.sym_or(S.sym_and(x[i] > x[i - 1], x[i + 1] < x[i]), S.sym_and(x[i] < x[i - 1], x[i + 1] > x[i]))
+        ctx.claim('fp_strict_turning_point_reported', S.sym_or(S.sym_not(turning), i in idx), (i, idx))
+        strictly_monotone = S.sym_or(S.sym_and(x[i] > x[i - 1], x[i + 1] > x[i]), S.sym_and(x[i] < x[i - 1], x[i + 1] < x[i]))
+        ctx.claim('fp_no_peak_inside_strictly_monotone_run', S.sym_or(S.sym_not(strictly_monotone), i not in idx), (i, idx))
+
+
+SCENARIOS = {'peaks': peaks, 'peaks_fp': peaks_fp}
 
 
 def obligations(tier, seed):
@@ -105,3 +120,7 @@ def obligations(tier, seed):
         yield Ob('peaks', {'n': n, 'via_object': True})
     for n in (3, 4):
         yield Ob('peaks', {'n': n, 'kind': 'i'})      # integer-dtype series
+    if tier != 'quick':
+        # Float64 lemma (the differences are fp.sub terms: ~150 s at n=3), thorough tier
+        yield Ob('peaks_fp', {'n': 3}, query_ms=300000, timeout_s=3000)
+        yield Ob('peaks_fp', {'n': 4}, query_ms=300000, timeout_s=3000, optional=True)
